@@ -568,6 +568,44 @@ func suiteSession(h *H) {
 		h.emit(fmt.Sprintf("!session-subdir-link seed=%d", h.seed), out, v, true)
 		h.stat("session.subdir-link")
 	}
+	// ---- a symbolic link named as a source argument (no trailing slash) arrives as that link (C11); with a trailing slash
+	// the directory it points to is meant
+	{
+		la := filepath.Join(base, "linkarg")
+		os.MkdirAll(filepath.Join(la, "src", "d"), 0o755)
+		os.WriteFile(filepath.Join(la, "src", "target.txt"), []byte("t"), 0o644)
+		os.WriteFile(filepath.Join(la, "src", "d", "x"), []byte("x"), 0o644)
+		os.Symlink("target.txt", filepath.Join(la, "src", "link"))
+		os.Symlink("d", filepath.Join(la, "src", "dlink"))
+		d, derr := startDaemon([]rsyncd.Module{{Name: "m", Path: filepath.Join(la, "src")}})
+		for _, arr := range []string{"local", "pull"} {
+			if arr == "pull" && derr != nil {
+				continue
+			}
+			dst := filepath.Join(la, "dst-"+arr)
+			os.MkdirAll(dst, 0o755)
+			args := []string{"rsync", "-a", filepath.Join(la, "src", "link"), filepath.Join(la, "src", "dlink"), dst + "/"}
+			if arr == "pull" {
+				args = []string{"rsync", "-a", d.url("m", "link"), dst + "/"}
+			}
+			_, err := maincmd.Main(context.Background(), quietEnv(), args, nil)
+			out, v := "ok", ""
+			if err != nil {
+				out = "err"
+			} else if tg, lerr := os.Readlink(filepath.Join(dst, "link")); lerr != nil || tg != "target.txt" {
+				v = fmt.Sprintf("FAIL[C11] a symbolic link named as a source argument (%s) did not arrive as a link to \"target.txt\" (readlink: %q, %v): what it points to was copied in its place", arr, tg, lerr)
+			} else if arr == "local" {
+				if tg, lerr := os.Readlink(filepath.Join(dst, "dlink")); lerr != nil || tg != "d" {
+					v = fmt.Sprintf("FAIL[C11] a symbolic link to a directory named as a source argument did not arrive as a link (readlink: %q, %v)", tg, lerr)
+				}
+			}
+			h.emit(fmt.Sprintf("!session-linkarg seed=%d %s", h.seed, arr), out, v, true)
+			h.stat("session.linkarg")
+		}
+		if derr == nil {
+			d.stop()
+		}
+	}
 	// ---- modification times beyond January 2038 do not fit the 32-bit field of protocol 27; however the sender squeezes
 	// them in, a later change of the file at equal size with another such time is still picked up (C12)
 	for _, arr := range []byte("LPU") {
